@@ -354,7 +354,8 @@ bool Terminal::Impl::executeRunHistoryCmd(SessionContext *s, const Args &args)
                 is_index_valid = true;
             }
         } else {
-            if (s->history.size() >= static_cast<size_t>(-index)) {
+            //! negate in 64 bits: -INT_MIN does not fit an int
+            if (s->history.size() >= static_cast<size_t>(-static_cast<int64_t>(index))) {
                 s->curr_input = s->history.at(s->history.size() + index);
                 is_index_valid = true;
             }
